@@ -482,11 +482,13 @@ func corruptLine(line, kind string) (string, bool) {
 		v = map[string]string{"nocolon": "XX", "onecolon": "XX:i", "unknowntype": "XX:Q:1", "A-empty": "XX:A:", "A-two": "XX:A:ab", "i-nonint": "XX:i:x", "i-float": "XX:i:1.5",
 			"f-nonnum": "XX:f:x", "H-odd": "XX:H:abc", "H-nonhex": "XX:H:zz", "emptytag": "",
 			"i-sign": "XX:i:-", "i-plus": "XX:i:+", "i-empty": "XX:i:", "i-over": "XX:i:9223372036854775808", "i-underscore": "XX:i:1_0", "i-hex": "XX:i:0x10",
-			"f-sign": "XX:f:-", "f-dot": "XX:f:.", "f-empty": "XX:f:", "f-comma": "XX:f:1,5", "f-two": "XX:f:1.5.2", "H-0x": "XX:H:0xff", "H-space": "XX:H:0 ", "type-lower": "XX:z:a", "type-empty": "XX::a", "type-two": "XX:ii:1"}[strings.TrimPrefix(kind, "tag-")]
+			"f-sign": "XX:f:-", "f-dot": "XX:f:.", "f-empty": "XX:f:", "f-comma": "XX:f:1,5", "f-two": "XX:f:1.5.2", "H-0x": "XX:H:0xff", "H-space": "XX:H:0 ", "type-lower": "XX:z:a", "type-empty": "XX::a", "type-two": "XX:ii:1",
+			// a tag cut after its type, for EVERY type (a type whose value may be empty must still have its second colon), and after its name
+			"onecolon-A": "XX:A", "onecolon-f": "XX:f", "onecolon-Z": "XX:Z", "onecolon-H": "XX:H", "onecolon-B": "XX:B", "name-colon": "XX:"}[strings.TrimPrefix(kind, "tag-")]
 		// once appended after the existing tags, once in front of them
 		return strings.Join(append(f, v), "\t"), true
 	case strings.HasPrefix(kind, "tagfirst-"):
-		v = map[string]string{"nocolon": "XX", "i-nonint": "XX:i:x", "H-odd": "XX:H:abc"}[strings.TrimPrefix(kind, "tagfirst-")]
+		v = map[string]string{"nocolon": "XX", "i-nonint": "XX:i:x", "H-odd": "XX:H:abc", "onecolon-Z": "XX:Z", "onecolon-H": "XX:H"}[strings.TrimPrefix(kind, "tagfirst-")]
 		g := append(append(append([]string{}, f[:11]...), v), f[11:]...)
 		return strings.Join(g, "\t"), true
 	}
@@ -512,10 +514,11 @@ func corruptionMenu() []string {
 		}
 	}
 	for _, t := range []string{"nocolon", "onecolon", "unknowntype", "A-empty", "A-two", "i-nonint", "i-float", "f-nonnum", "H-odd", "H-nonhex", "emptytag",
-		"i-sign", "i-plus", "i-empty", "i-over", "i-underscore", "i-hex", "f-sign", "f-dot", "f-empty", "f-comma", "f-two", "H-0x", "H-space", "type-lower", "type-empty", "type-two"} {
+		"i-sign", "i-plus", "i-empty", "i-over", "i-underscore", "i-hex", "f-sign", "f-dot", "f-empty", "f-comma", "f-two", "H-0x", "H-space", "type-lower", "type-empty", "type-two",
+		"onecolon-A", "onecolon-f", "onecolon-Z", "onecolon-H", "onecolon-B", "name-colon"} {
 		m = append(m, "tag-"+t)
 	}
-	for _, t := range []string{"nocolon", "i-nonint", "H-odd"} {
+	for _, t := range []string{"nocolon", "i-nonint", "H-odd", "onecolon-Z", "onecolon-H"} {
 		m = append(m, "tagfirst-"+t)
 	}
 	return m
